@@ -198,9 +198,34 @@ func c17(r *Report, s *Sem) {
 			var typ types.Type
 			for _, l := range leaves(c.Common().Args[2]) {
 				ap := pathOf(l)
-				if ap.Root == ssa.Value(ctxChParam) {
+				if ctxChParam != nil && ap.Root == ssa.Value(ctxChParam) {
 					fld = ap.Last()
 					typ = stripConv(l).Type()
+				}
+				// the function takes the three values instead of the channel: what its callers pass for that parameter
+				if pr, isParam := stripConv(l).(*ssa.Parameter); isParam && pr.Parent() == ctxFn && ctxChParam == nil {
+					idx := paramIndex(pr)
+					var got *types.Var
+					agree := true
+					for _, cf := range p.LimeFuncs() {
+						eachCall(cf, func(cc ssa.CallInstruction) {
+							if staticCallee(cc) != ctxFn || idx >= len(cc.Common().Args) {
+								return
+							}
+							cap := pathOf(cc.Common().Args[idx])
+							if cap.Last() == nil || !typeIs(cap.Root.Type(), s.channelT) {
+								agree = false
+								return
+							}
+							if got != nil && got != cap.Last() {
+								agree = false
+							}
+							got = cap.Last()
+						})
+					}
+					if agree && got != nil {
+						fld, typ = got, pr.Type()
+					}
 				}
 			}
 			stored = append(stored, kv{key, fld, typ})
